@@ -15,22 +15,41 @@ structure Frame (s s' : State) : Prop where
   next : s'.next = s.next
   socks : s'.socks = s.socks
   aevents : s'.aevents = s.aevents
+  dstor : s'.dstor = s.dstor
 
-theorem Frame.rfl' (s : State) : Frame s s := ⟨rfl, rfl, rfl, rfl, rfl, rfl⟩
+theorem Frame.rfl' (s : State) : Frame s s := ⟨rfl, rfl, rfl, rfl, rfl, rfl, rfl⟩
 
 theorem Frame.trans {a b c : State} (h1 : Frame a b) (h2 : Frame b c) : Frame a c :=
   ⟨h2.raw.trans h1.raw, h2.rawJSON.trans h1.rawJSON, h2.cur.trans h1.cur, h2.next.trans h1.next,
+   h2.socks.trans h1.socks, h2.aevents.trans h1.aevents, h2.dstor.trans h1.dstor⟩
+
+/-- like `Frame`, but the process-wide default storage may change (provisionContext, Validate) -/
+structure FrameX (s s' : State) : Prop where
+  raw : s'.raw = s.raw
+  rawJSON : s'.rawJSON = s.rawJSON
+  cur : s'.cur = s.cur
+  next : s'.next = s.next
+  socks : s'.socks = s.socks
+  aevents : s'.aevents = s.aevents
+
+theorem FrameX.rfl' (s : State) : FrameX s s := ⟨rfl, rfl, rfl, rfl, rfl, rfl⟩
+
+theorem FrameX.trans {a b c : State} (h1 : FrameX a b) (h2 : FrameX b c) : FrameX a c :=
+  ⟨h2.raw.trans h1.raw, h2.rawJSON.trans h1.rawJSON, h2.cur.trans h1.cur, h2.next.trans h1.next,
    h2.socks.trans h1.socks, h2.aevents.trans h1.aevents⟩
 
-theorem frame_ev (s : State) (es : List Ev) : Frame s (ev s es) := ⟨rfl, rfl, rfl, rfl, rfl, rfl⟩
+theorem Frame.toX {s s' : State} (h : Frame s s') : FrameX s s' :=
+  ⟨h.raw, h.rawJSON, h.cur, h.next, h.socks, h.aevents⟩
 
-theorem frame_alloc (s : State) : Frame s (alloc s) := ⟨rfl, rfl, rfl, rfl, rfl, rfl⟩
+theorem frame_ev (s : State) (es : List Ev) : Frame s (ev s es) := ⟨rfl, rfl, rfl, rfl, rfl, rfl, rfl⟩
+
+theorem frame_alloc (s : State) : Frame s (alloc s) := ⟨rfl, rfl, rfl, rfl, rfl, rfl, rfl⟩
 
 theorem loadModAt_frame (i : Inst) (m : Mod) (s : State) (live : List Live) :
     Frame s (loadModAt i m s live).1 := by
   unfold loadModAt
   repeat' split
-  all_goals first | exact Frame.rfl' s | exact ⟨rfl, rfl, rfl, rfl, rfl, rfl⟩
+  all_goals first | exact Frame.rfl' s | exact ⟨rfl, rfl, rfl, rfl, rfl, rfl, rfl⟩
 
 theorem loadMod_frame (cid app idx : Nat) (m : Mod) (s : State) (live : List Live) :
     Frame s (loadMod cid app idx m s live).1 := by
@@ -92,7 +111,7 @@ theorem loadApps_frame (cid : Nat) : ∀ (as : List App) (s : State) (live : Lis
     | some r => exact h
 
 theorem openWriter_frame (k : Nat) (s : State) : Frame s (openWriter k s) := by
-  unfold openWriter; split <;> exact ⟨rfl, rfl, rfl, rfl, rfl, rfl⟩
+  unfold openWriter; split <;> exact ⟨rfl, rfl, rfl, rfl, rfl, rfl, rfl⟩
 
 theorem openLog_frame (cid idx : Nat) (m : Mod) (s : State) (live : List Live) (wk : List Nat) :
     Frame s (openLog cid idx m s live wk).1 := by
@@ -127,11 +146,11 @@ theorem closeLogs_frame : ∀ (ks : List Nat) (s : State), Frame s (closeLogs ks
   | k :: ks, s => by
     unfold closeLogs
     split
-    · refine Frame.trans ?_ (closeLogs_frame ks _); exact ⟨rfl, rfl, rfl, rfl, rfl, rfl⟩
-    · refine Frame.trans ?_ (closeLogs_frame ks _); exact ⟨rfl, rfl, rfl, rfl, rfl, rfl⟩
+    · refine Frame.trans ?_ (closeLogs_frame ks _); exact ⟨rfl, rfl, rfl, rfl, rfl, rfl, rfl⟩
+    · refine Frame.trans ?_ (closeLogs_frame ks _); exact ⟨rfl, rfl, rfl, rfl, rfl, rfl, rfl⟩
 
 theorem cleanupOne_frame (l : Live) (s : State) : Frame s (cleanupOne l s) := by
-  unfold cleanupOne; split <;> exact ⟨rfl, rfl, rfl, rfl, rfl, rfl⟩
+  unfold cleanupOne; split <;> exact ⟨rfl, rfl, rfl, rfl, rfl, rfl, rfl⟩
 
 theorem cleanupAll_frame : ∀ (ls : List Live) (s : State), Frame s (cleanupAll ls s)
   | [], s => Frame.rfl' s
@@ -146,22 +165,56 @@ theorem cancel_frame (cid : Nat) (cbs wk : List Nat) (live : List Live) (s : Sta
   · exact cleanupAll_frame _ _
   · exact ((frame_ev _ _).trans (closeLogs_frame _ _)).trans (cleanupAll_frame _ _)
 
+theorem loadStorAt_frame (i : Inst) (m : Mod) (s : State) (live : List Live) :
+    Frame s (loadStorAt i m s live).1 := by
+  unfold loadStorAt
+  split
+  · exact frame_ev _ _
+  · split <;> exact frame_ev _ _
+
+theorem setStorage_frame (cid : Nat) (m : Mod) (s : State) (live : List Live) :
+    FrameX s (setStorage cid m s live).1 := by
+  unfold setStorage
+  split
+  · exact ⟨rfl, rfl, rfl, rfl, rfl, rfl⟩
+  · split
+    · exact FrameX.rfl' s
+    · have h := ((frame_alloc s).trans (loadStorAt_frame ⟨s.nseq, cid, 102, 0⟩ m (alloc s) live)).toX
+      generalize loadStorAt ⟨s.nseq, cid, 102, 0⟩ m (alloc s) live = r at h
+      obtain ⟨s', live', o⟩ := r
+      cases o with
+      | none => exact h.trans ⟨rfl, rfl, rfl, rfl, rfl, rfl⟩
+      | some r => exact h
+
+theorem restoreStorage_frame (s : State) : FrameX s (restoreStorage s) := by
+  unfold restoreStorage
+  split
+  · exact ⟨rfl, rfl, rfl, rfl, rfl, rfl⟩
+  · exact FrameX.rfl' s
+
 theorem provisionContext_frame (cid : Nat) (c : Cfg) (pp : List Nat) (s : State) :
-    Frame s (provisionContext cid c pp s).1 := by
+    FrameX s (provisionContext cid c pp s).1 := by
   unfold provisionContext
-  have h1 := openLogs_frame cid c.logs s
+  have h1 := (openLogs_frame cid c.logs s).toX
   generalize openLogs cid c.logs s = r1 at h1
   obtain ⟨s1, live1, wk, o1⟩ := r1
   cases o1 with
-  | some r => exact h1.trans (cancel_frame _ _ _ _ _)
+  | some r => exact (h1.trans (cancel_frame _ _ _ _ _).toX).trans (restoreStorage_frame _)
   | none =>
     dsimp only
-    have h2 := loadApps_frame cid (order pp c.apps) s1 live1
-    generalize loadApps cid (order pp c.apps) s1 live1 = r2 at h2
-    obtain ⟨s2, live2, o2⟩ := r2
-    cases o2 with
-    | some r => exact (h1.trans h2).trans (cancel_frame _ _ _ _ _)
-    | none => exact h1.trans h2
+    have h1' := h1.trans (setStorage_frame cid c.stor s1 live1)
+    generalize setStorage cid c.stor s1 live1 = r1' at h1'
+    obtain ⟨s1', live1', o1'⟩ := r1'
+    cases o1' with
+    | some r => exact (h1'.trans (cancel_frame _ _ _ _ _).toX).trans (restoreStorage_frame _)
+    | none =>
+      dsimp only
+      have h2 := (loadApps_frame cid (order pp c.apps) s1' live1').toX
+      generalize loadApps cid (order pp c.apps) s1' live1' = r2 at h2
+      obtain ⟨s2, live2, o2⟩ := r2
+      cases o2 with
+      | some r => exact ((h1'.trans h2).trans (cancel_frame _ _ _ _ _).toX).trans (restoreStorage_frame _)
+      | none => exact h1'.trans h2
 
 /-- the context provisionContext returns on success is for `cid` and holds the config's apps -/
 theorem provisionContext_ctx (cid : Nat) (c : Cfg) (pp : List Nat) (s : State) (s1 : State) (ctx : Ctx)
@@ -173,15 +226,21 @@ theorem provisionContext_ctx (cid : Nat) (c : Cfg) (pp : List Nat) (s : State) (
   | some r => simp at h
   | none =>
     dsimp only at h
-    generalize loadApps cid (order pp c.apps) s1' live1 = r2 at h
-    obtain ⟨s2, live2, o2⟩ := r2
-    cases o2 with
+    generalize setStorage cid c.stor s1' live1 = r1' at h
+    obtain ⟨s1'', live1', o1'⟩ := r1'
+    cases o1' with
     | some r => simp at h
     | none =>
-      simp at h
-      obtain ⟨_, h2⟩ := h
-      subst h2
-      exact ⟨rfl, rfl⟩
+      dsimp only at h
+      generalize loadApps cid (order pp c.apps) s1'' live1' = r2 at h
+      obtain ⟨s2, live2, o2⟩ := r2
+      cases o2 with
+      | some r => simp at h
+      | none =>
+        simp at h
+        obtain ⟨_, h2⟩ := h
+        subst h2
+        exact ⟨rfl, rfl⟩
 
 /-! ### Start / Stop: what happens to sockets -/
 
@@ -197,6 +256,8 @@ theorem Frame4.trans {a b c : State} (h1 : Frame4 a b) (h2 : Frame4 b c) : Frame
   ⟨h2.raw.trans h1.raw, h2.rawJSON.trans h1.rawJSON, h2.cur.trans h1.cur, h2.next.trans h1.next⟩
 
 theorem Frame.to4 {s s' : State} (h : Frame s s') : Frame4 s s' := ⟨h.raw, h.rawJSON, h.cur, h.next⟩
+
+theorem FrameX.to4 {s s' : State} (h : FrameX s s') : Frame4 s s' := ⟨h.raw, h.rawJSON, h.cur, h.next⟩
 
 def mkSock (cid : Nat) (a : App) (ad : Nat) : Sock := ⟨ad, a.tag, cid, a.name⟩
 
@@ -553,6 +614,29 @@ theorem openLogsFrom_err (cid : Nat) : ∀ (ms : List Mod) (idx : Nat) (s : Stat
     | none => exact openLogsFrom_err cid ms (idx + 1) s' live' wk' r h
     | some r' => simp at h; exact h0 r (by simp [h])
 
+theorem loadStorAt_err (i : Inst) (m : Mod) (s : State) (live : List Live) (r : Res)
+    (h : (loadStorAt i m s live).2.2 = some r) : r.accepted = false := by
+  unfold loadStorAt at h
+  split at h
+  · simp at h; rw [← h]; rfl
+  · split at h
+    · simp at h; rw [← h]; rfl
+    · simp at h
+
+theorem setStorage_err (cid : Nat) (m : Mod) (s : State) (live : List Live) (r : Res)
+    (h : (setStorage cid m s live).2.2 = some r) : r.accepted = false := by
+  unfold setStorage at h
+  split at h
+  · simp at h
+  · split at h
+    · simp at h; rw [← h]; exact faultRes_err _
+    · have h0 := loadStorAt_err ⟨s.nseq, cid, 102, 0⟩ m (alloc s) live
+      generalize loadStorAt ⟨s.nseq, cid, 102, 0⟩ m (alloc s) live = q at h h0
+      obtain ⟨s', live', o⟩ := q
+      cases o with
+      | none => simp at h
+      | some r' => simp at h; exact h0 r (by simp [h])
+
 theorem provisionContext_err (cid : Nat) (c : Cfg) (pp : List Nat) (s : State) (r : Res)
     (h : (provisionContext cid c pp s).2.2 = some r) : r.accepted = false := by
   unfold provisionContext at h
@@ -564,12 +648,19 @@ theorem provisionContext_err (cid : Nat) (c : Cfg) (pp : List Nat) (s : State) (
   | some r' => simp at h; exact h1 r (by simp [h])
   | none =>
     dsimp only at h
-    have h2 := loadApps_err cid (order pp c.apps) s1 live1
-    generalize loadApps cid (order pp c.apps) s1 live1 = q2 at h h2
-    obtain ⟨s2, live2, o2⟩ := q2
-    cases o2 with
-    | some r' => simp at h; exact h2 r (by simp [h])
-    | none => simp at h
+    have h1' := setStorage_err cid c.stor s1 live1
+    generalize setStorage cid c.stor s1 live1 = q1' at h h1'
+    obtain ⟨s1', live1', o1'⟩ := q1'
+    cases o1' with
+    | some r' => simp at h; exact h1' r (by simp [h])
+    | none =>
+      dsimp only at h
+      have h2 := loadApps_err cid (order pp c.apps) s1' live1'
+      generalize loadApps cid (order pp c.apps) s1' live1' = q2 at h h2
+      obtain ⟨s2, live2, o2⟩ := q2
+      cases o2 with
+      | some r' => simp at h; exact h2 r (by simp [h])
+      | none => simp at h
 
 /-! ### map order -/
 
@@ -1084,7 +1175,7 @@ theorem inv_changeTo {s : State} {r : Option Cfg} (h : Inv s r) (c : Cfg) (e : E
         obtain ⟨ctx, r1, r2, r3, r4, r5⟩ := h.run
         exact ⟨ctx, r1, r2, Nat.lt_succ_of_lt r3, r4, r5⟩⟩
 
-theorem inv_frame_bump {s s' : State} {r : Option Cfg} (h : Inv s r) (hf : Frame s s') (res : Res) :
+theorem inv_frame_bump {s s' : State} {r : Option Cfg} (h : Inv s r) (hf : FrameX s s') (res : Res) :
     Inv (bump (s', res)).1 r := by
   refine ⟨hf.raw.trans h.raw, hf.rawJSON.trans h.rawJSON, ?_, ?_⟩
   · intro k hk
@@ -1108,7 +1199,7 @@ theorem inv_frame_bump {s s' : State} {r : Option Cfg} (h : Inv s r) (hf : Frame
       · show (s'.socks.map _).Perm _
         rw [hf.socks]; exact r5
 
-theorem validate_frame (c : Cfg) (e : Env) (s : State) : Frame s (validate c e s).1 := by
+theorem validate_frame (c : Cfg) (e : Env) (s : State) : FrameX s (validate c e s).1 := by
   unfold validate
   have h1 := provisionContext_frame s.next c e.pp s
   generalize provisionContext s.next c e.pp s = q at h1
@@ -1118,7 +1209,7 @@ theorem validate_frame (c : Cfg) (e : Env) (s : State) : Frame s (validate c e s
   | none =>
     cases o with
     | none => exact h1
-    | some ctx => exact h1.trans (cancel_frame _ _ _ _ _)
+    | some ctx => exact h1.trans (cancel_frame _ _ _ _ _).toX
 
 /-- one operation keeps the invariant; the spec is told only whether the operation was accepted -/
 theorem inv_step {s : State} {r : Option Cfg} (h : Inv s r) (op : Op) :
@@ -1132,11 +1223,11 @@ theorem inv_step {s : State} {r : Option Cfg} (h : Inv s r) (op : Op) :
     unfold step
     rw [h.raw]
     cases r with
-    | none => exact inv_frame_bump h (Frame.rfl' s) _
+    | none => exact inv_frame_bump h (FrameX.rfl' s) _
     | some c0 =>
       dsimp only
       cases hra : replaceApp a c0.apps with
-      | none => exact inv_frame_bump h (Frame.rfl' s) _
+      | none => exact inv_frame_bump h (FrameX.rfl' s) _
       | some apps =>
         have := inv_changeTo h { c0 with apps := apps } e
         show Inv (bump (changeTo { c0 with apps := apps } e s)).1
@@ -1148,11 +1239,11 @@ theorem inv_step {s : State} {r : Option Cfg} (h : Inv s r) (op : Op) :
     unfold step
     rw [h.raw]
     cases r with
-    | none => exact inv_frame_bump h (Frame.rfl' s) _
+    | none => exact inv_frame_bump h (FrameX.rfl' s) _
     | some c0 =>
       dsimp only
       cases hra : removeApp n c0.apps with
-      | none => exact inv_frame_bump h (Frame.rfl' s) _
+      | none => exact inv_frame_bump h (FrameX.rfl' s) _
       | some apps =>
         have := inv_changeTo h { c0 with apps := apps } e
         show Inv (bump (changeTo { c0 with apps := apps } e s)).1
@@ -1160,7 +1251,7 @@ theorem inv_step {s : State} {r : Option Cfg} (h : Inv s r) (op : Op) :
         cases hacc : (changeTo { c0 with apps := apps } e s).2.accepted <;> rw [hacc] at this
         · exact this
         · simpa [Spec.step, Spec.attempted, hra] using this
-  | junk => exact inv_frame_bump h (Frame.rfl' s) _
+  | junk => exact inv_frame_bump h (FrameX.rfl' s) _
   | validate c e =>
     have := inv_frame_bump h (validate_frame c e s) (validate c e s).2
     simpa [step, Spec.step] using this
@@ -1182,5 +1273,176 @@ theorem inv_runBoth : ∀ (ops : List Op) (s : State) (r : Option Cfg), Inv s r 
   | o :: os, s, r, h => by
     unfold runBoth
     exact inv_runBoth os _ _ (inv_step h o)
+
+/-! ### the process-wide default storage (certmagic.Default.Storage) -/
+
+theorem setStorage_ok {cid : Nat} {m : Mod} {s s' : State} {live live' : List Live}
+    (h : setStorage cid m s live = (s', live', none)) : s'.dstor = m.key := by
+  unfold setStorage at h
+  split at h
+  · rename_i hk
+    simp at h; rw [← h.1]; exact hk.symm
+  · split at h
+    · simp at h
+    · generalize loadStorAt ⟨s.nseq, cid, 102, 0⟩ m (alloc s) live = r at h
+      obtain ⟨s1, live1, o⟩ := r
+      cases o with
+      | none => simp at h; rw [← h.1]
+      | some r => simp at h
+
+theorem restoreStorage_dstor (s : State) (ctx : Ctx) (h : s.cur = some ctx) :
+    (restoreStorage s).dstor = ctx.stor := by
+  unfold restoreStorage; rw [h]
+
+/-- provisionContext and the default storage: on success it is the new config's storage (also
+    recorded in the context); on failure it is put back to the storage of the configuration that
+    is current — if there is one. -/
+theorem provisionContext_dstor (cid : Nat) (c : Cfg) (pp : List Nat) (s : State) :
+    (∀ s1 ctx, provisionContext cid c pp s = (s1, some ctx, none) → s1.dstor = c.stor.key ∧ ctx.stor = c.stor.key) ∧
+    (∀ r cur, (provisionContext cid c pp s).2.2 = some r → s.cur = some cur →
+      (provisionContext cid c pp s).1.dstor = cur.stor) ∧
+    ((provisionContext cid c pp s).2.2 = none → ∃ ctx, (provisionContext cid c pp s).2.1 = some ctx) := by
+  unfold provisionContext
+  have h1 := openLogs_frame cid c.logs s
+  generalize openLogs cid c.logs s = r1 at h1
+  obtain ⟨s1, live1, wk, o1⟩ := r1
+  cases o1 with
+  | some r =>
+    refine ⟨fun _ _ hh => by simp at hh, fun _ cur _ hc => ?_, fun hh => by simp at hh⟩
+    exact restoreStorage_dstor _ cur (((cancel_frame _ _ _ _ _).cur.trans h1.cur).trans hc)
+  | none =>
+    dsimp only
+    have h1' := setStorage_frame cid c.stor s1 live1
+    have hk : ∀ s' live', setStorage cid c.stor s1 live1 = (s', live', none) → s'.dstor = c.stor.key :=
+      fun _ _ h => setStorage_ok h
+    generalize setStorage cid c.stor s1 live1 = r1' at h1' hk
+    obtain ⟨s1', live1', o1'⟩ := r1'
+    cases o1' with
+    | some r =>
+      refine ⟨fun _ _ hh => by simp at hh, fun _ cur _ hc => ?_, fun hh => by simp at hh⟩
+      exact restoreStorage_dstor _ cur ((((cancel_frame _ _ _ _ _).cur.trans h1'.cur).trans h1.cur).trans hc)
+    | none =>
+      dsimp only
+      have hk' := hk s1' live1' rfl
+      have h2 := loadApps_frame cid (order pp c.apps) s1' live1'
+      generalize loadApps cid (order pp c.apps) s1' live1' = r2 at h2
+      obtain ⟨s2, live2, o2⟩ := r2
+      cases o2 with
+      | some r =>
+        refine ⟨fun _ _ hh => by simp at hh, fun _ cur _ hc => ?_, fun hh => by simp at hh⟩
+        exact restoreStorage_dstor _ cur
+          (((((cancel_frame _ _ _ _ _).cur.trans h2.cur).trans h1'.cur).trans h1.cur).trans hc)
+      | none =>
+        refine ⟨fun s1x ctx hh => ?_, fun r cur hh => by simp at hh, fun _ => ⟨_, rfl⟩⟩
+        simp at hh
+        obtain ⟨rfl, rfl⟩ := hh
+        exact ⟨h2.dstor.trans hk', h2.dstor.trans hk'⟩
+
+theorem bindAll_dstor (cid : Nat) (a : App) (blocked l : List Nat) (s : State) :
+    (bindAll cid a blocked l s).1.dstor = s.dstor := by
+  obtain ⟨pre, suf, _, h2, _, _⟩ := bindAll_spec cid a blocked l s
+  rw [h2]
+
+theorem startApp_dstor (cid : Nat) (blocked : List Nat) (a : App) (s : State) :
+    (startApp cid blocked a s).1.dstor = s.dstor := by
+  unfold startApp
+  split
+  · have h := bindAll_dstor cid a blocked a.listen s
+    generalize bindAll cid a blocked a.listen s = r at h
+    obtain ⟨s', b⟩ := r
+    cases b <;> exact h
+  · split
+    · rfl
+    · have h := bindAll_dstor cid a blocked a.listen (evA s [.start cid a.name])
+      generalize bindAll cid a blocked a.listen (evA s [.start cid a.name]) = r at h
+      obtain ⟨s', b⟩ := r
+      cases b <;> exact h
+
+theorem stopApps_dstor (cid : Nat) : ∀ (as : List App) (s : State), (stopApps cid as s).dstor = s.dstor
+  | [], _ => rfl
+  | a :: as, s => by
+    unfold stopApps
+    rw [stopApps_dstor cid as]
+    unfold stopApp; split <;> rfl
+
+theorem startApps_dstor (cid : Nat) (blocked : List Nat) : ∀ (rest started : List App) (s : State),
+    (startApps cid blocked started rest s).1.dstor = s.dstor
+  | [], _, _ => rfl
+  | a :: rest, started, s => by
+    unfold startApps
+    have h := startApp_dstor cid blocked a s
+    generalize startApp cid blocked a s = r at h
+    obtain ⟨s', b⟩ := r
+    cases b with
+    | true => dsimp only; rw [startApps_dstor cid blocked rest, h]
+    | false => dsimp only; rw [stopApps_dstor, h]
+
+theorem unsyncedStop_dstor (c : Option Ctx) (s : State) : (unsyncedStop c s).dstor = s.dstor := by
+  unfold unsyncedStop
+  cases c with
+  | none => rfl
+  | some ctx => dsimp only; rw [(cancel_frame _ _ _ _ _).dstor, stopApps_dstor]
+
+theorem finishSettingUp_stor (ctx : Ctx) (post : Bool) (s : State) :
+    (finishSettingUp ctx post s).2.1.stor = ctx.stor := by
+  unfold finishSettingUp finishSettingUpAt
+  cases post <;> rfl
+
+/-- run and the default storage: an accepted run leaves it at the new config's storage; a run
+    rejected by provisionContext puts it back to the current config's (if any); a run rejected
+    AFTER provisionContext succeeded (admin routers, Start, post-start) leaves it at the REJECTED
+    config's storage -/
+theorem run_dstor (cid : Nat) (c : Cfg) (e : Env) (s : State) :
+    (∀ s' ctx, run cid c e s = (s', some ctx, .ok) → s'.dstor = c.stor.key ∧ ctx.stor = c.stor.key) ∧
+    ((provisionContext cid c e.pp s).2.2 = none → (run cid c e s).2.2 ≠ .ok →
+      (run cid c e s).1.dstor = c.stor.key) ∧
+    (∀ r0 cur, (provisionContext cid c e.pp s).2.2 = some r0 → s.cur = some cur →
+      (run cid c e s).1.dstor = cur.stor) := by
+  unfold run
+  have hd := provisionContext_dstor cid c e.pp s
+  generalize provisionContext cid c e.pp s = r1 at hd
+  obtain ⟨s1, o1, e1⟩ := r1
+  cases e1 with
+  | some r =>
+    refine ⟨fun _ _ hh => by simp at hh, fun hh => by simp at hh, fun r0 cur _ hc => ?_⟩
+    exact hd.2.1 r cur rfl hc
+  | none =>
+    obtain ⟨ctx, hctx⟩ := hd.2.2 rfl
+    simp only at hctx
+    subst hctx
+    obtain ⟨hk1, hk2⟩ := hd.1 s1 ctx rfl
+    dsimp only
+    by_cases hadm : e.adm = 2
+    · simp only [hadm, if_true]
+      refine ⟨fun _ _ hh => by simp at hh, fun _ _ => ?_, fun _ _ hh => by simp at hh⟩
+      rw [(cancel_frame _ _ _ _ _).dstor]; exact hk1
+    simp only [hadm, if_false]
+    have hs := startApps_dstor cid e.blocked (order e.ps ctx.apps) [] s1
+    generalize startApps cid e.blocked [] (order e.ps ctx.apps) s1 = r2 at hs
+    obtain ⟨s2, b⟩ := r2
+    simp only at hs
+    cases b with
+    | false =>
+      dsimp only
+      refine ⟨fun _ _ hh => by simp at hh, fun _ _ => ?_, fun _ _ hh => by simp at hh⟩
+      rw [(cancel_frame _ _ _ _ _).dstor, hs]; exact hk1
+    | true =>
+      dsimp only
+      have h3 := (finishSettingUp_spec ctx e.post s2).1.dstor
+      have h4 := finishSettingUp_stor ctx e.post s2
+      generalize finishSettingUp ctx e.post s2 = r3 at h3 h4
+      obtain ⟨s3, ctx', b3⟩ := r3
+      simp only at h3 h4
+      cases b3 with
+      | false =>
+        dsimp only
+        refine ⟨fun _ _ hh => by simp at hh, fun _ _ => ?_, fun _ _ hh => by simp at hh⟩
+        rw [unsyncedStop_dstor, h3, hs]; exact hk1
+      | true =>
+        dsimp only
+        refine ⟨fun _ _ hh => ?_, fun _ hne => absurd rfl hne, fun _ _ hh => by simp at hh⟩
+        simp at hh
+        obtain ⟨rfl, rfl⟩ := hh
+        exact ⟨(h3.trans hs).trans hk1, h4.trans hk2⟩
 
 end CaddyModel.C01
